@@ -291,6 +291,14 @@ def gen_keyed_cases(rng):
         ("select id from k1 where id not in (select id from k2 where v > 1)", False, 0),
         ("select id, count(*), sum(v) from k1 group by id", False, 0),
         ("select id, count(*) from k1 where id >= %d group by id order by id" % lo, True, 1),
+        # key ranges whose bounds are constants of different types (only an all-INT range may go into the scan)
+        ("select id from k1 where id >= %d and id <= %d.5" % (lo, hi), False, 0),
+        ("select id, v from k1 where id between %d and %d.5" % (lo, hi), False, 0),
+        ("select id from k1 where id >= %d and id < cast(%d as bigint)" % (lo, hi), False, 0),
+        ("select id from k1 where id > %d.5 and id <= %d" % (lo, hi), False, 0),
+        ("select v from k1 where id >= %d" % lo, False, 0),
+        ("select count(*) from k1 where id >= %d and id < %d" % (lo, hi), False, 0),
+        ("select v from k1 where id = %d" % lo, False, 0),
     ]
     # views over the keyed tables (as they are, reordered, and over a view): the planner's key-order
     # and key-range reasoning must not leak through a view
